@@ -94,6 +94,13 @@ def gen_rt(ctx, vh):
     notes["rtA_cases"] = len(a)
     cases += _sample(rng, a, 700 if quick else 12000, keep=lambda c: c["risky"] and rng.random() < 0.5)
 
+    if not quick:
+        # (A2) every index list of two triangles over four vertices (4096), with and without TexCoord
+        a2, r = _run_gen(ctx, "rtA2", "PlyGenRT", lambda p: rt_cfg(p, [14], [1, 4], 2, [1, 4]), "bfsA2")
+        notes["rtA2_states"] = r.distinct
+        notes["rtA2_cases"] = len(a2)
+        cases += _sample(rng, a2, 10000, keep=lambda c: c["risky"] and rng.random() < 0.5)
+
     # (B) fixed welded / permuted / unreferenced shapes x many attribute subsets x every option set
     b, r = _run_gen(ctx, "rtB", "PlyGenRT",
                     lambda p: rt_cfg(p, [8, 9, 10, 12, 13] if quick else [8, 9, 10, 11, 12, 13, 17, 18],
@@ -266,6 +273,7 @@ def rt_counters(cases, raw):
     n["written_ok"] = sum(1 for e in enc if e["wr"] == "OK")
     n["read_ok"] = sum(1 for e in enc if e["rd"] == "OK")
     n["read_ok_with_primitives"] = sum(1 for e in enc if e["rd"] == "OK" and e["mesh"]["idx"])
+    n["encodings_compared_with_first"] = sum(1 for e in enc if e["rd"] == "OK" and e["fmt"] != "ascii")
     return n
 
 
